@@ -132,6 +132,12 @@ func main() {
 			}
 		}
 	}
+	var pool []*Holder
+	type keptPtr struct {
+		p    *Payload
+		want uint64
+	}
+	var kept []keptPtr
 	deadline := time.Now().Add(time.Duration(*seconds) * time.Second)
 	ops := 0
 	for round := 0; time.Now().Before(deadline); round++ {
@@ -174,8 +180,35 @@ func main() {
 				w.RemoveEntity(ents[i].e)
 				ents[i] = ents[len(ents)-1]
 				ents = ents[:len(ents)-1]
-			case op < 9: // refresh a value with new heap objects, only referenced from the table
-				setH(ents[r.n(len(ents))])
+			case op < 9: // refresh a value
+				x := ents[r.n(len(ents))]
+				switch r.n(3) {
+				case 0: // new heap objects written through the component pointer
+					setH(x)
+				case 1: // an OLD value object handed to World.Set and dropped: afterwards only the table references it
+					if len(pool) == 0 {
+						for i := 0; i < 64; i++ {
+							c := fresh()
+							pool = append(pool, &Holder{P: payload(c), S: []uint64{c, c * 3, c * 7}, Str: fmt.Sprint("s", c)})
+						}
+					}
+					h := pool[len(pool)-1]
+					pool[len(pool)-1] = nil
+					pool = pool[:len(pool)-1]
+					x.h = h.P.ID
+					w.Set(x.e, hid, h)
+				default: // a pointer read from a component, the component removed, the pointer stored elsewhere
+					if x.h2 != 0 {
+						p := (*Holder2)(w.Get(x.e, h2id)).P
+						want := x.h2
+						w.Remove(x.e, h2id)
+						x.h2 = 0
+						kept = append(kept, keptPtr{p, want})
+						if len(kept) > 200 {
+							kept = kept[100:]
+						}
+					}
+				}
 			default: // batch moves
 				if r.n(2) == 0 {
 					f := ecs.All(hid).Without(tid)
@@ -186,6 +219,12 @@ func main() {
 			}
 		}
 		check(round)
+		for _, k := range kept {
+			if !okPayload(k.p, k.want) {
+				fmt.Printf("CORRUPTION round %d: object %d kept by the caller after its component was removed is corrupt: %+v\n", round, k.want, k.p)
+				os.Exit(1)
+			}
+		}
 	}
 	check(-1)
 	fmt.Printf("no corruption observed: %d operations, %d entities\n", ops, len(ents))
